@@ -7,7 +7,7 @@ CONSTANTS
   CasEps = {}
   Versions = {0}
   VerEpochs = {""}
-  IdemKeys = {"", "k1"}
+  IdemKeys = {""}
   IdemTTLs = {1}
   Scores = {0}
   Limits <- LimitsSmall
@@ -20,6 +20,6 @@ CONSTANTS
   Deterministic = FALSE
   Manual = FALSE
 VIEW View
-INVARIANTS TypeOK ReadStreamIsRetainedSuffix ReadStateIsRefPage PaginationEnumerates PageAfterCursor OverdueKeysGone
-PROPERTIES FoldPublish FoldRemove OnlyWritesChangeState CheckOrder RemoveReason SuppressedChangesNothing AppliedAppendsAndBroadcastsOnce BroadcastOnlyByChange EpochStable EpochFresh SingleKeyExact ExpiryRemovesOnce RefreshedSurvive ExpiryNoopChangesNothing NeverLostNeverTwice VersionExact UnversionedKeepsVersion VersionedStoresVersion IdemReturnsOriginal IdemSavedOnApply
+INVARIANTS TypeOK ReadStreamIsRetainedSuffix ReadStateIsRefPage PaginationEnumerates PageAfterCursor OrderedFlagFollowsOptions OverdueKeysGone SweeperArmed
+PROPERTIES FoldPublish FoldRemove OnlyWritesChangeState CheckOrder RemoveReason SuppressedChangesNothing AppliedAppendsAndBroadcastsOnce BroadcastOnlyByChange EpochStable EpochFresh SingleKeyExact ExpiryRemovesOnce RefreshedSurvive ExpiryNoopChangesNothing NeverLostNeverTwice VersionExact UnversionedKeepsVersion VersionedStoresVersion IdemReturnsOriginal IdemSavedOnApply IdemExact IdemSweepKeepsValid
 CHECK_DEADLOCK FALSE
